@@ -608,6 +608,66 @@ func c04(p *core.Program, r *core.Report) {
 	}
 	r.Count("count_sources", nsrc)
 
+	// ---- rule 1b: a decoded byte or word never indexes anything unchecked
+	const rule1b = "decoded-index-bounded"
+	r.Rule(rule1b, "every index or slice expression in the decoder packages whose position is data-dependent on a decoded byte or word (wkbcommon.ReadByte / ReadUInt32, through integer arithmetic, conversions, phis and integer parameters of module functions) is unreachable once the CFG edges on which `position < len(operand)` is known are deleted - a look-up table indexed by an input byte needs `idx < len(table)`, not `idx <= len(table)`; an index out of range is a panic on attacker-controlled input. (On the pinned tree no decoded value is used as an index: the fixture's good/bad pair keeps the rule exercised.)", 0)
+	{
+		nidx := 0
+		type src struct {
+			fn *ssa.Function
+			v  ssa.Value
+		}
+		var work []src
+		for _, fn := range fns {
+			for _, c := range eng.Calls(fn) {
+				call, ok := c.(*ssa.Call)
+				if !ok || !(eng.IsCallTo(c, mod+"/encoding/wkbcommon", "ReadUInt32") || eng.IsCallTo(c, mod+"/encoding/wkbcommon", "ReadByte")) {
+					continue
+				}
+				for _, rf := range eng.Referrers(call) {
+					if ex, ok := rf.(*ssa.Extract); ok && ex.Index == 0 {
+						work = append(work, src{fn, ex})
+					}
+				}
+			}
+		}
+		seenSrc := map[ssa.Value]bool{}
+		for len(work) > 0 {
+			w := work[len(work)-1]
+			work = work[:len(work)-1]
+			if seenSrc[w.v] {
+				continue
+			}
+			seenSrc[w.v] = true
+			taint := eng.IntFlow(w.v)
+			for _, sk := range eng.IndexSinks(w.fn, taint) {
+				nidx++
+				key := fmt.Sprintf("%s/index#%d", short(w.fn), nidx)
+				guarded := eng.IndexGuarded(w.fn, sk, taint)
+				r.Check(guarded, rule1b, key, p.Pos(sk.Instr.Pos()), true, "behind position < len(operand)", "a value decoded from the input is used as an index at "+p.Pos(sk.Instr.Pos())+" without a dominating `index < len` test (a test with <= or > admits index == len): out-of-range input panics the decoder")
+			}
+			// integer arguments of module calls carry the taint into the callee
+			for v := range taint {
+				for _, rf := range eng.Referrers(v) {
+					ci, ok := rf.(ssa.CallInstruction)
+					if !ok {
+						continue
+					}
+					cal := ci.Common().StaticCallee()
+					if cal == nil || !core.InModule(cal) || len(cal.Blocks) == 0 {
+						continue
+					}
+					for i, a := range ci.Common().Args {
+						if a == v && i < len(cal.Params) {
+							work = append(work, src{cal, cal.Params[i]})
+						}
+					}
+				}
+			}
+		}
+		r.Count("decoded_index_sinks", nidx)
+	}
+
 	// ---- rule 2: no explicit panic reachable from the decoder entry points
 	const rule2 = "panic-free-decoders"
 	r.Rule(rule2, "no function reachable in the VTA call graph (plus json reflection edges) from the 21 decoder entry points contains an explicit panic, os.Exit/log.Fatal call or a type assertion without comma-ok", 30)
